@@ -124,6 +124,51 @@ def check_state(acc, pendulum, z, inst):
         acc.c["evaluations"] += 1
         if type(v) is not t:
             acc.mismatch("result-type", k, case, type(v).__name__, t.__name__)
+    check_constructors(acc, pendulum, z, inst, x, b, case)
+
+
+def _ctor_val(fn, pendulum, want_type):
+    try:
+        v = fn()
+    except Exception as e:  # noqa: BLE001
+        return ("raises", type(e).__name__)
+    if want_type is not None and type(v) is not want_type:
+        return ("type", type(v).__name__)
+    return ("ok", obs.fields(v), obs.offset_s(v) if v.tzinfo is not None else None)
+
+
+def check_constructors(acc, pendulum, z, inst, x, b, case):
+    """The overridden alternative constructors (combine, fromtimestamp, utcfromtimestamp, fromordinal, strptime):
+    same fields and offset as the native classmethod given the same arguments, and the pendulum type."""
+    P, N = pendulum.DateTime, dt_.datetime
+    utc = dt_.timezone.utc
+    ts = inst // US + 0.25
+    ctors = [
+        ("combine(date,timetz)", lambda C: C.combine(b.date(), b.timetz())),
+        ("combine(date,time)", lambda C: C.combine(b.date(), b.time())),
+        ("combine(pendulum-date,pendulum-timetz)", lambda C: C.combine(x.date(), x.timetz())),
+        ("combine(date,time,tzinfo)", lambda C: C.combine(b.date(), b.time(), b.tzinfo)),
+        ("combine(date,timetz,utc)", lambda C: C.combine(b.date(), b.timetz(), utc)),
+        ("fromordinal", lambda C: C.fromordinal(b.toordinal())),
+        ("utcfromtimestamp", lambda C: C.utcfromtimestamp(ts)),
+    ]
+    if z is not None:
+        ctors += [
+            ("fromtimestamp(ts,tz)", lambda C: C.fromtimestamp(ts, b.tzinfo)),
+            ("fromtimestamp(ts,utc)", lambda C: C.fromtimestamp(ts, utc)),
+            ("strptime(%z)", lambda C: C.strptime(b.strftime("%Y-%m-%d %H:%M:%S.%f %z"), "%Y-%m-%d %H:%M:%S.%f %z")),
+        ]
+    import warnings
+    with warnings.catch_warnings():
+        warnings.simplefilter("ignore", DeprecationWarning)
+        for name, fn in ctors:
+            got = _ctor_val(lambda: fn(P), pendulum, P)
+            want = _ctor_val(lambda: fn(N), pendulum, None)
+            acc.c["evaluations"] += 1
+            acc.c["transitions"] += 1
+            if got != want:
+                acc.mismatch("constructor", name.split("(")[0] + ("/" + name.split("(")[1].rstrip(")") if "(" in name else ""),
+                             dict(case, ctor=name), got, want)
 
 
 def kf_fold_order(x, y, ix, iy, got, name):
